@@ -76,7 +76,7 @@ func vpH_C12_gate() {
 	err := relay.serveRead(context.Background(), nil, recv, send, nil)
 	if failRead {
 		vpAssert(errors.Is(err, readErr), "C12.read-error-ends-the-session")
-		vpAssert(len(recv) == 0 && len(send) == 0, "C12.read-error-no-output")
+		vpAssert(len(recv) == 0, "C12.read-error-nothing-reaches-the-handler")
 		vpReach("end")
 		return
 	}
@@ -97,8 +97,7 @@ func vpH_C12_gate() {
 		vpAssert(len(recv) == 0, "C12.invalid-message-never-reaches-the-handler")
 		vpAssert(len(send) == 1, "C12.exactly-one-rejection")
 		if len(send) == 1 {
-			_, isNotice := (<-send).(*ServerNoticeMsg)
-			vpAssert(isNotice, "C12.rejection-is-a-notice")
+			vpAssert(vpIsRejection(<-send), "C12.rejection-is-a-notice-or-rejecting-ok-closed")
 		}
 	}
 	// a second frame on the same connection is judged on its own outcomes (the gate keeps
